@@ -891,6 +891,11 @@ fn check_cold_twin(res: &mut HRes, live: &Arc<FixtureDatabase>, log: &[(String, 
         if key == "unused" && !opened_only.is_empty() {
             continue;
         }
+        // ... and neither are answers asked *in* such a document (the cold twin knows it only if a later edit of it was
+        // logged - one that does not parse, or it would be indexed there as well)
+        if opened_only.iter().any(|f| key.split_whitespace().nth(1).is_some_and(|k| k == f.as_str() || k.starts_with(&format!("{}:", f)))) {
+            continue;
+        }
         // mechanism hints (the root causes of these names are repaired; a returning violation keeps the label)
         let library_file_indexed = live.file_definitions.iter().any(|e| rel(root, e.key()).contains("/otherlib/"));
         let class = if library_file_indexed {
